@@ -770,7 +770,7 @@ fn gen_events(rng: &mut Rng, max_len: usize, start_enabled: bool) -> Vec<Ev> {
                 Ev::FullSnapshot { exchange, t, orders }
             }
             28..=39 => match pick_known(rng, &known) {
-                Some((i, c)) => Ev::ConfirmOpen { instr: i, cid: c, t, filled: *rng.pick(&[0, 0, 2, 4, QTY]) },
+                Some((i, c)) => Ev::ConfirmOpen { instr: i, cid: c, t, filled: *rng.pick(&[0, 0, 0, 2, 2, 4, 4, QTY, QTY, QTY + 1]) }, // QTY + 1: an OVER-filled report (venue lot rounding)
                 None => Ev::Market { instr: 0, t, price: 100 },
             },
             40..=45 => match pick_known(rng, &known) {
